@@ -148,6 +148,21 @@ def check(kind, case, rec):
                   and np.allclose(rs.normals, nrm, rtol=0, atol=1e-11))
         rec.require("copy-on-scaled-points-scales-the-area", scaled, {"s": s_, "dV-sum": [float(np.sum(rs.dV)), float(np.sum(rb.dV))]})
     rec.require("dV-positive", bool((np.asarray(rb.dV) > 0).all()))
+    ftype = {"quad": "line", "hexahedron": "quad", "quad8": "line3", "quad9": "line3"}.get(mesh.cell_type)
+    if ftype is not None:  # mesh_faces() knows these four cell types
+        mf = rb.mesh_faces()
+        cf = np.asarray(rb.mesh.cells_faces)
+        ok = mf.cell_type == ftype and np.array_equal(np.asarray(mf.cells), cf) and np.array_equal(np.asarray(mf.points), np.asarray(rb.mesh.points))
+        bc = np.asarray(rb.mesh.cells)
+        nv = 2 ** dim
+        # vertices of a face are vertices of its cell, a mid-edge point of a line3 face is a mid-edge point of the cell
+        ok = ok and all(set(f[: nv // 2]) <= set(c[:nv]) for f, c in zip(cf.tolist(), bc.tolist()))
+        if ftype == "line3":
+            ok = ok and all(f[2] in c[4:8] for f, c in zip(cf.tolist(), bc.tolist()))
+        if ftype == "line":
+            seg = np.linalg.norm(np.asarray(mesh.points)[cf[:, 1]] - np.asarray(mesh.points)[cf[:, 0]], axis=1)
+            ok = ok and np.allclose(seg, np.asarray(rb.dV).sum(0), rtol=1e-12, atol=0)
+        rec.require("mesh_faces-is-the-face-mesh", bool(ok), {"type": mf.cell_type})
     if d3 != dim:
         rec.close("ensure_3d-zero-padding", float(np.abs(dA[2]).max() + np.abs(nrm[2]).max()), 0.0)
     dA2 = dA[:dim]
